@@ -390,6 +390,18 @@ Proof.
         eapply keeps_trans; [exact K1|]. pose proof (spawn_peer_keeps a m1) as K2. rewrite Es in K2. exact K2.
 Qed.
 
+(* a connection is opened only to an address that has no entry yet: one task per address *)
+Lemma spawn_only_absent m m' a : spawn_peer m = (m', [SpPeer a]) -> pget (m_peers m) a = None.
+Proof.
+  unfold spawn_peer. destruct (rev (m_candidates m)) as [|[a0 id] rest]; [discriminate|].
+  destruct (pget (m_peers m) a0) eqn:E; [discriminate|]. intros [= _ <-]. exact E.
+Qed.
+Lemma spawn_at_most_one m : let sp := snd (spawn_peer m) in sp = [] \/ exists a, sp = [SpPeer a].
+Proof.
+  unfold spawn_peer. destruct (rev (m_candidates m)) as [|[a0 id] rest]; [left; reflexivity|].
+  destruct (pget (m_peers m) a0); [left; reflexivity | right; eexists; reflexivity].
+Qed.
+
 (* choke rotations and tracker answers never touch the view *)
 Definition PK (ps ps' : list (addr * peer)) : Prop :=
   forall a, match pget ps a with
